@@ -80,7 +80,7 @@ func main() {
 	runner.Main(runner.Config{
 		ID:    "C09",
 		Level: "fault_enumeration",
-		Rule:  "enumerated: build pairs = old file size class {100B, 1 block, 1 block+100, 2 blocks, 2 blocks+100, 3 blocks (thorough: 2 blocks+65535, 3 blocks+1)} x reuse shape {whole-file copy, aligned prefix range, suffix range over the last block, fresh block then all blocks, shifted ranges, partial use then whole-file copy, other block then whole-file copy, whole-file copy twice, whole-file copy then partial use, insertion, second-half-of-block} plus two two-file pairs with an empty file and two pairs whose patch reads two old files alternately (a,b,a,b inside one new file; a,b,a across three); x {plain patch, optimized patch (rediff, 2 partitions)}; x damage = none | every single damage of the catalogue on every old file (bit flip at first/last byte of every block, byte 1 and byte 32768; every block replaced by its weak twin - same rolling checksum, other bytes; truncation to 0, 1, 32768, B-1, B, B+1, 2B, last block boundary, size-1; extension by 1, up to / exactly to / one past the end of the last block, B, B+1; deletion; empty file filled with 1, B, B+1 bytes) | every pair of single damages on two different old files (two-file pairs) | thorough: every pair of single damages of different kinds on one file. Each case: old build copied, damaged, patch applied through pwr.NewSafeKeeper (same pool for patcher and fresh bowl), outcome compared with the new build by an independent Lstat walk. A silently wrong new file is attributed to its damage only if the same file comes out right without damage (else fingerprint damage = already-failing); with two damages, to the single damage that alone reproduces the same wrong content if there is one. Non-trivial = at least one damage hits an old file that the independently decoded patch reads (block range, whole-file copy or bsdiff target); for damage=none: the patch reads at least one old file.",
+		Rule:  "enumerated: build pairs = old file size class {100B, 1 block, 1 block+100, 2 blocks, 2 blocks+100, 3 blocks (thorough: 2 blocks+65535, 3 blocks+1)} x reuse shape {whole-file copy, aligned prefix range, suffix range over the last block, fresh block then all blocks, shifted ranges, partial use then whole-file copy, other block then whole-file copy, whole-file copy twice, whole-file copy then partial use, insertion, second-half-of-block} plus two two-file pairs with an empty file two pairs whose patch reads two old files alternately and two pairs with look-alike blocks (duplicated old files, a file whose blocks repeat) (a,b,a,b inside one new file; a,b,a across three); x {plain patch, optimized patch (rediff, 2 partitions)}; x damage = none | every single damage of the catalogue on every old file (bit flip at first/last byte of every block, byte 1 and byte 32768; every block replaced by its weak twin - same rolling checksum, other bytes; truncation to 0, 1, 32768, B-1, B, B+1, 2B, last block boundary, size-1; extension by 1, up to / exactly to / one past the end of the last block, B, B+1; deletion; empty file filled with 1, B, B+1 bytes) | every pair of single damages on two different old files (two-file pairs) | thorough: every pair of single damages of different kinds on one file. Each case: old build copied, damaged, patch applied through pwr.NewSafeKeeper (same pool for patcher and fresh bowl), outcome compared with the new build by an independent Lstat walk. A silently wrong new file is attributed to its damage only if the same file comes out right without damage (else fingerprint damage = already-failing); with two damages, to the single damage that alone reproduces the same wrong content if there is one. Non-trivial = at least one damage hits an old file that the independently decoded patch reads (block range, whole-file copy or bsdiff target); for damage=none: the patch reads at least one old file.",
 		Assumptions: []string{
 			"block contents are seeded pseudo-random (VERIF_SEED); a bit flip inverts bit 0 of one byte",
 			"the signature handed to the safekeeper is the one WritePatch produced when the old build was published (diff from an empty build), computed before the damage",
@@ -209,6 +209,19 @@ func pairs(thorough bool) []pair {
 		name: "two-files/back-and-forth",
 		old:  wh.Build{wh.F("a", "A.B"), wh.F("b", "D.E/300")},
 		nw:   wh.Build{wh.F("k", "A.r1/500"), wh.F("l", "D.E/300"), wh.F("m", "r2/700.B")},
+	})
+	// look-alike blocks: two old files with the same content, and a file whose blocks repeat
+	// (whatever a validation leaves behind in a shared buffer then equals what a truncation
+	// of the next block cut off)
+	out = append(out, pair{
+		name: "two-files/duplicates",
+		old:  wh.Build{wh.F("a", "A/40000"), wh.F("b", "A/40000"), wh.F("c", "B.A/40000")},
+		nw:   wh.Build{wh.F("a", "A/40000"), wh.F("b", "A/40000"), wh.F("c", "B.A/40000"), wh.F("n", "=new")},
+	})
+	out = append(out, pair{
+		name: "one-file/periodic",
+		old:  wh.Build{wh.F("a", "A.A.A/100")},
+		nw:   wh.Build{wh.F("a", "A.A.A/100"), wh.F("b", "r1/500.A.A.A/100")},
 	})
 	out = append(out, pair{
 		name: "two-files/whole",
